@@ -5,6 +5,7 @@ import (
 	"time"
 
 	"github.com/hujm2023/go-sms-protocol/cmpp"
+	"github.com/hujm2023/go-sms-protocol/datacoding"
 	"github.com/hujm2023/go-sms-protocol/sgip"
 	"github.com/hujm2023/go-sms-protocol/smpp"
 )
@@ -29,9 +30,38 @@ func genHelpers(g *genCtx) {
 		}
 		g.emit(Case{"seed": r.Int63()})
 	}
+	if g.mine(0) {
+		g.emit(Case{"registry": 1})
+	}
 }
 
 func runHelpers(c Case, tr *Tracer) {
+	if caseInt(c, "registry") == 1 {
+		for _, proto := range []string{"CMPP", "SMPP"} {
+			rows := []interface{}{}
+			for n := -1; n <= 300; n++ {
+				var pdc datacoding.ProtocolDataCoding
+				var nc, gc datacoding.Codec
+				if proto == "CMPP" {
+					pdc, nc, gc = datacoding.CMPPDataCoding(n), datacoding.NewCMPPCodec(datacoding.CMPPDataCoding(n), "x"), datacoding.GetCMPPCodec(datacoding.CMPPDataCoding(n), "x")
+				} else {
+					pdc, nc, gc = datacoding.SMPPDataCoding(n), datacoding.NewSMPPCodec(datacoding.SMPPDataCoding(n), "x"), datacoding.GetSMPPCodec(datacoding.SMPPDataCoding(n), "x")
+				}
+				row := Ev{"c": n, "valid": datacoding.IsValidProtoDataCoding(pdc), "wire": int(pdc.ToUint8()), "name": pdc.String(), "prio": pdc.Priority(),
+					"codec": "", "getcodec": "", "maxlen": 0, "splitby": 0}
+				if nc != nil {
+					row["codec"] = string(nc.Name())
+					row["maxlen"], row["splitby"] = nc.SplitBy()
+				}
+				if gc != nil {
+					row["getcodec"] = string(gc.Name())
+				}
+				rows = append(rows, row)
+			}
+			tr.emit(Ev{"ev": "Registry", "proto": proto, "rows": rows, "site": "datacoding.registry/" + proto})
+		}
+		return
+	}
 	seedv := int64(caseInt(c, "seed"))
 	if v, ok := c["seed"].(int64); ok {
 		seedv = v
